@@ -328,6 +328,8 @@ pub struct JobResult {
     pub order_tie: bool,
     pub switched_out_at: Vec<&'static str>,
     pub getrandom_calls: u32,
+    pub clock_reads: u32,
+    pub pid_reads: u32,
     pub include_depth: u32,
 }
 
@@ -376,7 +378,8 @@ pub fn build_args(job: &JobSpec, incdir: &str) -> Result<Args, String> {
 }
 
 /// Runs one job on the calling (caller) thread. The thread must hold the baton.
-fn run_job(job: &JobSpec, env: &WorkerEnv, sched: &Arc<Sched>, tid: usize, multi: bool) -> JobResult {
+fn run_job(job: &JobSpec, env: &WorkerEnv, sched: &Arc<Sched>, tid: usize, multi: bool, clock: (i128, i32)) -> JobResult {
+    let mut clock_reads = (0u32, 0u32);
     let incdir = env.include_dir(job);
     let fuel = if job.fuel > 0 { job.fuel } else { job.default_fuel() };
     // noise printed between jobs is not attributed to anybody
@@ -411,7 +414,10 @@ fn run_job(job: &JobSpec, env: &WorkerEnv, sched: &Arc<Sched>, tid: usize, multi
         Err(e) => Outcome::ArgsRejected(e),
         Ok(args) => {
             cc6502::verif_hooks::set_tick(Some(tick_cb));
+            simenv::set_sim_clock(Some(clock));
             let r = catch_unwind(AssertUnwindSafe(|| compile(reader, &mut writer, &args, obs_build)));
+            clock_reads = simenv::clock_reads();
+            simenv::set_sim_clock(None);
             cc6502::verif_hooks::set_tick(None);
             match r {
                 Ok(Ok(())) => Outcome::Ok,
@@ -478,6 +484,8 @@ fn run_job(job: &JobSpec, env: &WorkerEnv, sched: &Arc<Sched>, tid: usize, multi
         order_tie: decls.order_tie,
         switched_out_at: ctx.switched_out_at,
         getrandom_calls: simenv::getrandom_calls() - gr0,
+        clock_reads: clock_reads.0,
+        pid_reads: clock_reads.1,
         include_depth: 0,
     }
 }
@@ -517,9 +525,13 @@ pub fn run_world(world: &World, env: &Arc<WorkerEnv>, wall_per_job: Duration) ->
             .spawn(move || {
                 simenv::set_thread_hash_key(key);
                 sched.start(tid);
-                for &j in &world.threads[tid].jobs {
+                for (pos, &j) in world.threads[tid].jobs.iter().enumerate() {
                     current_job[tid].store(j, Ordering::SeqCst);
-                    let r = run_job(&world.jobs[j], &env, &sched, tid, multi);
+                    // simulated wall clock and pid of this job: a function of the world (seed, thread, position)
+                    let h = crate::rng::mix(world.seed ^ 0xC10C, (tid as u64) << 8 | pos as u64);
+                    let start_ns = 1_500_000_000i128 * 1_000_000_000 + (h % (400_000_000u64 * 1000)) as i128 * 1_000_000;
+                    let pid = 2 + (h >> 40) as i32 % 4_000_000;
+                    let r = run_job(&world.jobs[j], &env, &sched, tid, multi, (start_ns, pid));
                     results.lock().unwrap()[j] = Some(r);
                 }
                 current_job[tid].store(usize::MAX, Ordering::SeqCst);
